@@ -195,9 +195,28 @@ class Flow:
             preds = [p for p, _ in cfg.pred[nid]]
             if preds:
                 merged: dict = {}
+                keys = set()
                 for p in preds:
-                    for k, v in OUT[p].items():
-                        merged[k] = merged.get(k, frozenset()) | v
+                    keys.update(OUT[p])
+                for k in keys:
+                    acc = frozenset()
+                    for p in preds:
+                        st = OUT[p]
+                        if k in st:
+                            acc |= st[k]
+                        elif not k.endswith("[*]"):
+                            # this predecessor defines only a prefix of k (the
+                            # object was rebound on that path): keep those defs
+                            q = k
+                            while True:
+                                cut = max(q.rfind("."), q.rfind("["))
+                                if cut <= 0:
+                                    break
+                                q = q[:cut]
+                                if q in st:
+                                    acc |= st[q]
+                                    break
+                    merged[k] = acc
                 IN[nid] = merged
             new = transfer(nid, IN[nid])
             if new != OUT[nid]:
@@ -224,7 +243,8 @@ class Flow:
         while True:
             if p in state:
                 for did in sorted(state[p]):
-                    out.append((self.defs[did], path[len(p):]))
+                    d = self.defs[did]
+                    out.append((d, path[len(d.path):] if path.startswith(d.path) else path[len(p):]))
                 break
             cut = max(p.rfind("."), p.rfind("["))
             if cut <= 0:
